@@ -355,7 +355,7 @@ def gen_case(rng, malformed=False):
 
 
 def gen_cases(rng, tier):
-    n = 1200 if tier == "quick" else 10000
+    n = 1000 if tier == "quick" else 10000
     return [gen_case(rng.fork(k), malformed=(k % 5 == 4)) for k in range(n)]
 
 
